@@ -105,4 +105,20 @@ func init() {
 		Technique: "runtime monitoring: online trace checker (cursor model) over recorded stream callbacks",
 		DesignRef: "DESIGN.md §3 C09/C10",
 	})
+	add(Spec{
+		PropSpec: vlib.PropSpec{
+			ID: "C11", Level: "exploration",
+			Rule: "Both assembler packages: histories of 5..40 (thorough ..120) connections, both directions, interleaved PRNG; segment sizes 1 byte..5 pages (one third of the histories mix 1-page and multi-page packets and hold back the first data segment of half of the directions so that everything queues); closes by FIN/RST, re-open of the same 4-tuple after close (late retransmissions, duplicated SYN), directions without SYN, monotone or jittered timestamps, limits {none, per-connection 1,2,5, total 3,10}, FlushOlderThan/FlushCloseOlderThan at PRNG points and cut-offs, FlushAll in the middle and at the end; reassembly additionally with KeepFrom (10/40 %) and streams that refuse removal. After EVERY API call an audit reads pages-in-use and the pool snapshot through the verif accessors (under the package's own locks) and checks: I1 each stream New -> data* -> complete exactly once, nothing after completion; I2 pages in use == queued pages of open directions + kept pages, after FlushAll no removable connection and no page remains; I3 with a limit L the out-of-order pages (per connection / in total) are <= L + pages(current packet); I4 after an age flush no open connection waits in front of a page older than the cut-off and every gap skipped in that call led to data older than the cut-off. Non-trivial = history with >= 1 age flush that released data AND >= 1 limit-forced release; distinct by history hash.",
+			Assumptions: []string{"page and pool state is read through build-tag 'verif' accessors added to both packages (read-only, under conn.mu)", "'waiting on data older than the cut-off' is read as: the first (lowest-sequence) queued page is older than the cut-off"},
+			Phases: []vlib.Phase{
+				{Name: "tcpassembly", Bin: "vtcpasm", Quick: 16, Thorough: 16},
+				{Name: "reassembly", Bin: "vreasm", Quick: 16, Thorough: 16},
+			},
+			Require: []string{"classic_api_calls_audited", "reassembly_api_calls_audited", "classic_age_flushes_that_released_data", "reassembly_age_flushes_that_released_data", "classic_limit_forced_releases", "reassembly_limit_forced_releases", "reassembly_histories_with_streams_refusing_removal", "reassembly_histories_with_keep"},
+		},
+		LevelText: "Runtime monitor: structural invariants of both assemblers audited after every API call of generated multi-connection histories, through read-only accessors on live state, plus per-stream lifecycle counters in the stream wrappers.",
+		LevelNote: trusted,
+		Technique: "runtime monitoring: invariant audit at quiescent points via hooks + lifecycle monitors on stream callbacks",
+		DesignRef: "DESIGN.md §3 C11",
+	})
 }
